@@ -36,7 +36,7 @@ ENTRY = dict(
                 "single_device_with_cancels / handled_by_the_entry_with_cancels - one object per address, created and set up once, every handled frame handled by the entry, for all schedules with cancellations (Proofs/EntryCancel.inv_cancel: the invariant survives the cancellation); "
                 "unreleased_lock_blocks - contrast: a lock not released on cancellation blocks the address for ever) "
                 "+ correspondence (harness/c10_cancel.py: the cancellation on a real AsyncProtocol with the import held, the executor job's future cancelled with its awaiter as run_in_executor's is, then 1..3 later frames on the same / a second connection; "
-                "judged by the statement on the observation - one object, every due frame handled once by it, set-up once, get() callers, no consumer lost; the driver's replay machine does not have the cancel event: the model side of this clause is the theorems only)",
+                "judged by the statement on the observation - one object, every due frame handled once by it, set-up once, get() callers, no consumer lost; AND compared: the snapshot after EVERY event (pending imports, objects created, set-ups, announcements, (frame, object) handled, get() results) equals the one of the cancel machine EntryCancel.replayC (driver op c10c <consumers> <cr> <events>; replayC_states_ok: every state that replay goes through satisfies the invariant))",
             "at most one create per address, all schedules, any number of addresses": "theorem (per_address_single_device)",
             "every caller (consumer, user get()) obtains the same object at every time": "theorem (per_address_single_device, single_device, entry_is_stable, same_object_at_every_time)",
             "the same object through EVERY public way to obtain the device (protocol.data[name], get_nowait, attribute access, a subscribed callback, get / wait_for + read, the consumer's own), at every time":
